@@ -1,7 +1,8 @@
 import MosnVerif.Drive.Util
 import MosnVerif.Model.Subset
+import MosnVerif.Model.SubsetRequest
 namespace MosnVerif.Drive.C15
-open MosnVerif.Drive MosnVerif.Model.Subset
+open MosnVerif.Drive MosnVerif.Model.Subset MosnVerif.Model.SubsetRequest
 
 def parsePairs (s : String) : Option Path :=
   if s == "-" then some [] else
@@ -102,6 +103,53 @@ def expectTrie (hosts : List Host) (raw : List (List Key)) (policy : Nat) (dflt 
       | _ => [])
   joinWith "|" (sortStrings ents)
 
+/-! ### kind `px`: sequences of requests on one route through the proxy (request path) -/
+
+def parseReq (s : String) : Option (Option Meta) :=
+  if s == "n" then some none
+  else if s.startsWith "m:" then (parsePairs (s.drop 2).toString).map some
+  else none
+
+def critTok : Option Path → String
+  | none => "nil"
+  | some c => if c.isEmpty then "-" else joinWith ";" (c.map (fun kv => kv.1 ++ "=" ++ kv.2))
+
+/-- one request: observation `<host|none>/<route object after>` against the model's possible hosts and route object,
+and against the declarative targets of exactly this request -/
+def pxRequest (lb : LB) (nhosts : Nat) (targets : List Host) (res : Res) (obs : String) : Bool × Bool × String :=
+  let ds := List.range (nhosts + 1)
+  let possible := ds.flatMap (fun d1 => ds.filterMap (fun d2 => proxyChoose rrChoose lb res.used d1 d2))
+  let mtok := s!"{names possible}/{critTok res.route}"
+  match obs.splitOn "/" with
+  | [host, after] =>
+    let okHost (l : List Host) : Bool := if host == "none" then l.isEmpty else (l.map (·.name)).contains host
+    (okHost possible && after == critTok res.route, okHost targets, mtok)
+  | _ => (false, false, mtok)
+
+def runPx (mode pol dflt sels hosts route reqs obs : String) : String :=
+  let routeKind := (route.take 2).toString
+  match pol.toNat?, parsePairs dflt, parseHosts hosts, parsePairs (route.drop 2).toString,
+      (reqs.splitOn "|").mapM parseReq with
+  | some policy, some d, some hs, some rmd, some rs =>
+    if (mode != "F" && mode != "P") || (routeKind != "r:" && routeKind != "w:") then "E E bad-case" else
+    let raw := parseSelectors sels
+    let keys := generateSubsetKeys raw
+    let lb := if mode == "F" then newFilter hs policy d keys else newPre id hs policy d keys
+    -- the model's route object, as base_rule.go creates it (the weighted variant carries a decoy on the route itself)
+    let routeObj := if routeKind == "w:" then ruleCriteria 1 (some (weightedObject rmd)) (routeObject [("zz", "decoy")])
+      else ruleCriteria 0 none (routeObject rmd)
+    -- the declarative configuration: a route without metadata_match carries no criteria; a weighted cluster always does
+    let rc : Option Meta := if routeKind == "w:" then some rmd else if rmd.isEmpty then none else some rmd
+    let results := runSeq routeObj rs
+    let os := obs.splitOn "|"
+    if os.length != rs.length then s!"D V {joinWith "|" (results.map (fun r => critTok r.used))}" else
+    let per := (results.zip (rs.zip os)).map (fun (res, req, o) =>
+      pxRequest lb hs.length (requestTargets hs raw policy d rc req) res o)
+    let agree := per.all (·.1)
+    let spec := per.all (·.2.1)
+    s!"{if agree then "A" else "D"} {if spec then "S" else "V"} {joinWith "|" (per.map (·.2.2))}"
+  | _, _, _, _, _ => "E E bad-case"
+
 def stripTag (tag : String) (s : String) : Option String :=
   if s.startsWith tag then some (s.drop tag.length).toString else none
 
@@ -120,6 +168,7 @@ def runTrie (pol dflt sels hosts : String) (fi pi : String) : String :=
 
 def run (caseToks impl : List String) : String :=
   match caseToks, impl with
+  | ["px", mode, pol, dflt, sels, hosts, route, reqs], [obs] => runPx mode pol dflt sels hosts route reqs obs
   | ["t", pol, dflt, sels, hosts, "trie"], [fi, pi] => runTrie pol dflt sels hosts fi pi
   | [kind, pol, dflt, sels, hosts, query], [fi, pi] =>
     match pol.toNat?, parsePairs dflt, parseHosts hosts, parseQuery query, stripTag "F:" fi, stripTag "P:" pi with
